@@ -268,10 +268,39 @@ func zzC18Project(w *Weekly) (zone string, wk zzC18Week) {
 	return w.location.String(), wk
 }
 
+// zzC18Receiver returns the Weekly a document is decoded into: a zero one or
+// (populated) one that already holds another schedule -- a different zone,
+// all seven days set -- as a configuration struct filled with defaults or
+// re-read on reload does.  encoding/json and yaml.v3 both decode into the
+// existing value.  What was there before must not show through.
+func zzC18Receiver(populated bool, zone string) (w *Weekly) {
+	if !populated {
+		return &Weekly{}
+	}
+
+	other := "Asia/Kolkata"
+	if zone == other {
+		other = "UTC"
+	}
+
+	loc, err := time.LoadLocation(other)
+	if err != nil {
+		loc = time.UTC
+	}
+
+	w = &Weekly{location: loc}
+	for i := range w.days {
+		w.days[i] = dayRange{start: time.Duration(i+1) * time.Hour, end: time.Duration(i+2)*time.Hour + 7*time.Minute}
+	}
+
+	return w
+}
+
 // zzC18Build builds a real Weekly from the abstract schedule through one of
-// the public decoders.
+// the public decoders, into a fresh or an already populated receiver.
 func zzC18Build(rng *rand.Rand, zone string, wk zzC18Week) (w *Weekly, via string, err error) {
-	w = &Weekly{}
+	pop := rng.Intn(2) == 0
+	w = zzC18Receiver(pop, zone)
 	switch rng.Intn(3) {
 	case 0:
 		via = "json"
@@ -281,7 +310,7 @@ func zzC18Build(rng *rand.Rand, zone string, wk zzC18Week) (w *Weekly, via strin
 		err = yaml.Unmarshal([]byte(zzC18YAMLDoc(rng, zone, wk)), w)
 	default:
 		via = "json>yaml"
-		w0 := &Weekly{}
+		w0 := zzC18Receiver(rng.Intn(2) == 0, zone)
 		err = json.Unmarshal([]byte(zzC18JSONDoc(rng, zone, wk)), w0)
 		if err != nil {
 			break
@@ -294,6 +323,10 @@ func zzC18Build(rng *rand.Rand, zone string, wk zzC18Week) (w *Weekly, via strin
 		}
 
 		err = yaml.Unmarshal(b, w)
+	}
+
+	if pop {
+		via += " into populated receiver"
 	}
 
 	return w, via, err
@@ -353,6 +386,10 @@ type zzC18Vec struct {
 	// Pres, when set, is the one representation of the instant to use (the
 	// isolated re-run of a recorded call); otherwise all are used.
 	Pres *int `json:"pres"`
+
+	// Hist is the recorded sequence of earlier calls [s, n, pres] on the same
+	// Weekly object; it is executed first when re-running a recorded call.
+	Hist [][3]int64 `json:"hist"`
 
 	// Serialisation vectors.
 	D        int      `json:"d"`
@@ -475,12 +512,12 @@ func zzC18ReplayEval(w *zzWriter, rng *rand.Rand, v *zzC18Vec) (evals, bad, conc
 		return 0, 1, 0, 0
 	}
 
-	for _, p := range v.Pts {
-		s, n, want := p[0], p[1], p[5] == 1
-		off, wd, tod := zzC18WallOf(s, n, loc)
+	// The tz database must agree with the table TLC worked on.
+	usable := make([]int, 0, len(v.Pts))
+	for i, p := range v.Pts {
+		off, wd, tod := zzC18WallOf(p[0], p[1], loc)
 		if off != p[2] || wd != p[3] || tod != p[4] {
-			// The zone table handed to TLC and the tz database disagree
-			// about this instant: a fault of the machinery, not a verdict.
+			// A fault of the machinery, not a verdict.
 			conc++
 			w.put(map[string]any{
 				"kind": "conc", "c": v.C, "zone": v.Zone, "pt": p, "go": []int64{off, wd, tod},
@@ -489,57 +526,141 @@ func zzC18ReplayEval(w *zzWriter, rng *rand.Rand, v *zzC18Vec) (evals, bad, conc
 			continue
 		}
 
+		usable = append(usable, i)
 		evals++
-		if want {
+		if p[5] == 1 {
 			trueN++
 		}
+	}
 
-		// Every representation of the instant (or the one recorded).
-		first, last := 0, len(zzC18PresNames)-1
-		if v.Pres != nil {
-			first, last = *v.Pres, *v.Pres
+	// Contains has to be a function of (schedule, instant) alone: the rows are
+	// put to long-lived Weekly objects, in ascending order of the instants on
+	// the first and in descending or shuffled order (seeded) on a second one.
+	sort.Slice(usable, func(a, b int) bool {
+		pa, pb := v.Pts[usable[a]], v.Pts[usable[b]]
+
+		return pa[0] < pb[0] || (pa[0] == pb[0] && pa[1] < pb[1])
+	})
+
+	reported := map[int]bool{}
+	passes := 2
+	if v.Pres != nil {
+		passes = 1
+	}
+
+	for pass := 0; pass < passes; pass++ {
+		obj, order := sched, "ascending"
+		seq := append([]int{}, usable...)
+		if pass == 1 {
+			var berr error
+			obj, _, berr = zzC18Build(rng, v.Zone, wk)
+			if berr != nil {
+				break
+			}
+
+			if rng.Intn(2) == 0 {
+				order = "descending"
+				for a, b := 0, len(seq)-1; a < b; a, b = a+1, b-1 {
+					seq[a], seq[b] = seq[b], seq[a]
+				}
+			} else {
+				order = "shuffled"
+				rng.Shuffle(len(seq), func(a, b int) { seq[a], seq[b] = seq[b], seq[a] })
+			}
 		}
 
-		for pres := first; pres <= last; pres++ {
-			got := sched.Contains(zzC18Present(pres, s, n, loc, off))
-			if got == want {
-				continue
+		hist := make([][3]int64, 0, len(seq)*len(zzC18PresNames)+len(v.Hist))
+		for _, h := range v.Hist {
+			// Re-running a recorded call: first what the object was asked
+			// before.
+			hl, _ := time.LoadLocation(v.Zone)
+			ho, _, _ := zzC18WallOf(h[0], h[1], hl)
+			_ = obj.Contains(zzC18Present(int(h[2]), h[0], h[1], loc, ho))
+			hist = append(hist, h)
+		}
+
+		for _, idx := range seq {
+			p := v.Pts[idx]
+			s, n, off, wd, want := p[0], p[1], p[2], p[3], p[5] == 1
+			first, last := 0, len(zzC18PresNames)-1
+			if v.Pres != nil {
+				first, last = *v.Pres, *v.Pres
 			}
 
-			// Reproduce in isolation: fresh location, a Weekly constructed
-			// the way the package's own tests do, exactly the same instant
-			// in exactly the same representation.
-			loc2, _ := time.LoadLocation(v.Zone)
-			fresh := &Weekly{location: loc2}
-			for i, r := range wk {
-				fresh.days[i] = dayRange{start: time.Duration(r[0]), end: time.Duration(r[1])}
-			}
+			for pres := first; pres <= last; pres++ {
+				got := obj.Contains(zzC18Present(pres, s, n, loc, off))
+				call := [3]int64{s, n, int64(pres)}
+				if got == want || reported[idx] {
+					hist = append(hist, call)
 
-			got2 := fresh.Contains(zzC18Present(pres, s, n, loc2, off))
-			if got2 == want {
-				got3 := sched.Contains(zzC18Present(pres, s, n, loc, off))
+					continue
+				}
+
+				// Reproduce in isolation on a fresh object: the call alone,
+				// then after the last few earlier calls, then after all of
+				// them -- exactly the same instants in the same
+				// representations.
+				var rh [][3]int64
+				reproduced := false
+				for _, k := range []int{0, 3, len(hist)} {
+					if k > len(hist) {
+						k = len(hist)
+					}
+
+					rh = hist[len(hist)-k:]
+					if zzC18Isolated(v.Zone, wk, rh, call) != want {
+						reproduced = true
+
+						break
+					}
+				}
+
+				hist = append(hist, call)
+				if !reproduced {
+					w.put(map[string]any{
+						"kind": "flaky", "c": v.C, "zone": v.Zone, "pt": p, "via": via, "pres": pres, "order": order,
+					})
+
+					continue
+				}
+
+				reported[idx] = true
+				bad++
 				w.put(map[string]any{
-					"kind": "flaky", "c": v.C, "zone": v.Zone, "pt": p, "via": via, "again": got3, "pres": pres,
+					"kind": "bad", "what": "contains", "c": v.C, "zone": v.Zone, "shape": v.Shape,
+					"w": v.W, "pt": p, "range": v.W[wd], "want": want, "got": !want, "via": via,
+					"pres": pres, "order": order, "hist": append([][3]int64{}, rh...),
+					"given_as": zzC18Present(pres, s, n, loc, off).Format("Mon 2006-01-02 15:04:05.999999999 -07:00"),
+					"utc":      time.Unix(s, n).UTC().Format(time.RFC3339Nano),
+					"local":    time.Unix(s, n).In(loc).Format("Mon 2006-01-02 15:04:05.999999999 -07:00"),
 				})
-
-				continue
 			}
-
-			bad++
-			w.put(map[string]any{
-				"kind": "bad", "what": "contains", "c": v.C, "zone": v.Zone, "shape": v.Shape,
-				"w": v.W, "pt": p, "range": v.W[wd], "want": want, "got": got2, "via": via,
-				"pres": pres, "given_as": zzC18Present(pres, s, n, loc, off).Format("Mon 2006-01-02 15:04:05.999999999 -07:00"),
-				"utc":   time.Unix(s, n).UTC().Format(time.RFC3339Nano),
-				"local": time.Unix(s, n).In(loc).Format("Mon 2006-01-02 15:04:05.999999999 -07:00"),
-			})
-
-			// One report per row is enough.
-			break
 		}
 	}
 
 	return evals, bad, conc, trueN
+}
+
+// zzC18Isolated asks a fresh Weekly (fresh location, constructed the way the
+// package's own tests do) the calls of hist and then call, and returns the
+// last answer.
+func zzC18Isolated(zone string, wk zzC18Week, hist [][3]int64, call [3]int64) (got bool) {
+	loc, err := time.LoadLocation(zone)
+	if err != nil {
+		return false
+	}
+
+	fresh := &Weekly{location: loc}
+	for i, r := range wk {
+		fresh.days[i] = dayRange{start: time.Duration(r[0]), end: time.Duration(r[1])}
+	}
+
+	for _, h := range append(append([][3]int64{}, hist...), call) {
+		off, _, _ := zzC18WallOf(h[0], h[1], loc)
+		got = fresh.Contains(zzC18Present(int(h[2]), h[0], h[1], loc, off))
+	}
+
+	return got
 }
 
 // ---------------------------------------------------------- serialised forms
